@@ -10,8 +10,8 @@ both on ParameterInference.infer / iterate and BatchHandler.
 
 O1: RoundGate.tla - one action per public call / critical section, every configuration (kind, max_parallel_batches, batch_size,
     batches per round, n_initial_evidence, precomputed evidence, batches_per_acquisition, update_interval, async_acq, one or two
-    successive calls) chosen in Init, adversarial client; 23 invariants + termination; seven refuted controls, three of which are
-    expectations a user could have that the code does not meet (findings).
+    successive calls) chosen in Init, adversarial client; 23 invariants + termination; eight refuted controls: three mechanism controls (no round gate,
+    no re-initialisation) and five that refute three expectations a user could have and the code does not meet (findings).
 O3: histories of public calls on REAL elfi.BayesianOptimization / elfi.BOLFIRE / elfi.BSL objects through harness.sched_client
     (every is_ready script of length <= L, then seeded random answers; out-of-order task execution); recording subclasses whose
     overrides call super and log; stub surrogate / acquisition / classifier / likelihood that only tag and log (the GP, the
@@ -20,6 +20,7 @@ O3: histories of public calls on REAL elfi.BayesianOptimization / elfi.BOLFIRE /
 All failures are E: clauses, reported as drift (extension beyond the listed properties).
 """
 import copy
+import hashlib
 import itertools
 import os
 import random
@@ -30,7 +31,8 @@ import numpy as np
 from harness import tlc
 from harness.util import Hang, time_limit
 
-CALL_LIMIT_S = 30
+CALL_LIMIT_S = 20
+HANGS = [0]
 STEP = 0.015625          # acquired points are k/64: exact floats, exact in fixed point
 
 # ------------------------------------------------------------------------------ the log
@@ -38,7 +40,7 @@ LOG = []
 CTX = dict(constructing=False, kind="", gp=None)
 
 DEFAULTS = dict(id=-1, bi=-1, ans=False, arg=0, nb=0, ns=0, rd=0, nsr=0, nev=0, last=0, nsmp=0, objb=0, objr=0, np=0, nx=0, ql=0, gpn=0,
-                n=0, t=0, pend=0, seen=0, pts=[], rows=[], opt=False, pre=False, cur=0, raised="", left=0, msg="")
+                n=0, t=0, pend=0, seen=0, pts=[], rows=[], opt=False, pre=False, cur=0, raised="", left=0, msg="", digest="")
 
 
 def fx6(x):
@@ -268,15 +270,43 @@ def construct(sc):
     return o
 
 
-def record(sc):
-    """one history of public calls on one real object, under a scheduled client"""
+def result_digest(sc, o):
+    """what the history produced: the surrogate's evidence in order (BO, BOLFIRE) / the chain (BSL), and the simulation count"""
+    h = hashlib.sha256()
+    if sc["kind"] == "bsl":
+        h.update(np.ascontiguousarray(np.asarray(o.state["params"], dtype=float)).tobytes())
+    else:
+        h.update(np.ascontiguousarray(np.asarray(o.target_model.x_rows, dtype=float)).tobytes())
+    h.update(str(int(o.state["n_sim"])).encode())
+    return h.hexdigest()[:16]
+
+
+_SEQ = {}
+
+
+def seq_digest(sc):
+    """the same history under the native client, one batch at a time (batches_per_acquisition as in the scenario)"""
+    key = str({k: sc[k] for k in sc if k not in ("maxpar", "script", "sched_seed", "p_ready", "p_run", "pin", "bpa")}) + str(sc["bpa"] or sc["maxpar"])
+    if key not in _SEQ:
+        tr = record(dict(sc, maxpar=1, bpa=sc["bpa"] or sc["maxpar"]), native=True)
+        _SEQ[key] = tr["events"][-1]["digest"] if tr["events"] and not tr["events"][-1]["raised"] else "sequential run raised"
+    return _SEQ[key]
+
+
+def record(sc, native=False):
+    """one history of public calls on one real object, under a scheduled client (native=True: the sequential reference run)"""
     import elfi.client
+    import elfi.clients.native
     from harness.sched_client import ScheduledClient
     import logging
+    seq = "" if native or (sc["kind"] == "bo" and sc["async"]) else seq_digest(sc)
     del LOG[:]
     CTX.update(constructing=True, kind=sc["kind"])
-    cl = ScheduledClient(script=sc.get("script"), seed=sc.get("sched_seed", 0), p_ready=sc.get("p_ready", 0.5), p_run=sc.get("p_run", 0.5))
-    cl.events = LOG
+    if native:
+        cl = elfi.clients.native.Client()
+    else:
+        cl = ScheduledClient(script=sc.get("script"), seed=sc.get("sched_seed", 0), p_ready=sc.get("p_ready", 0.5), p_run=sc.get("p_run", 0.5))
+        cl.events = LOG
     old = elfi.client._client
     elfi.client.set_client(cl)
     lg = logging.getLogger("elfi")
@@ -304,13 +334,20 @@ def record(sc):
                         o.sample(arg, np.array([[float(sc["sigma"])]]), params0=np.array([4.0]), bar=False)
             except Hang:
                 raised = "Hang"
+                HANGS[0] += 1
             except Exception as ex:
                 raised, msg = type(ex).__name__, str(ex)[:100]
             try:
                 s = snap(o)
             except Exception:
                 s = {}
-            log("ret", raised=raised, msg=msg, left=len(cl.tasks), **s)
+            dg = ""
+            if not raised:
+                try:
+                    dg = result_digest(sc, o)
+                except Exception as ex:
+                    dg = "digest raised " + type(ex).__name__
+            log("ret", raised=raised, msg=msg, left=len(cl.tasks), digest=dg, **s)
             if raised:
                 break
     finally:
@@ -323,7 +360,7 @@ def record(sc):
         f.update(e)
         events.append(f)
     return dict(kind=sc["kind"], maxpar=sc["maxpar"], bs=sc["bs"], k=sc["k"], init=sc["init"], npre=sc["npre"], bpa=sc["bpa"], upd=sc["upd"],
-                events=events, **{"async": bool(sc["async"])})
+                seq=seq, events=events, **{"async": bool(sc["async"])})
 
 
 # ------------------------------------------------------------------------------ scenarios
@@ -406,7 +443,7 @@ def scenarios(ctx):
         for n in range(L + 1):
             for script in itertools.product([False, True], repeat=n):
                 out.append(dict(b, script=list(script), sched_seed=rnd.randint(0, 10 ** 6), p_ready=rnd.choice([0.0, 0.5, 1.0]), p_run=rnd.choice([0.0, 0.5, 1.0])))
-    out += [random_scenario(rnd, i) for i in range(160 if ctx.quick else 1500)]
+    out += [random_scenario(rnd, i) for i in range(120 if ctx.quick else 1500)]
     return out
 
 
@@ -480,8 +517,12 @@ def design_jobs(ctx):
         main = dict(Kinds=["bo", "bolfire", "bsl"], MaxPars=[3], BSs=[1, 2], Ks=[1, 3], NInits=[0, 2], NPres=[0, 2], BPAs=[1, 2], Upds=[0, 2],
                     Asyncs=[False, True], BoO1s=[6], BoO2s=[0, 8], MbO1s=[2], MbO2s=[0, 3])
     else:
-        main = dict(Kinds=["bo", "bolfire", "bsl"], MaxPars=[1, 2, 3, 4], BSs=[1, 2, 3], Ks=[1, 2, 3, 4], NInits=[0, 2, 3, 4, 6], NPres=[0, 2, 3],
-                    BPAs=[1, 2, 3], Upds=[0, 1, 3, 5], Asyncs=[False, True], BoO1s=[5, 8], BoO2s=[0, 4, 11], MbO1s=[1, 3], MbO2s=[0, 2, 4])
+        main = dict(Kinds=["bo", "bolfire", "bsl"], MaxPars=[1, 2, 3], BSs=[1, 2], Ks=[1, 2, 3], NInits=[0, 2, 4], NPres=[0, 2], BPAs=[1, 2], Upds=[0, 1, 3],
+                    Asyncs=[False, True], BoO1s=[5, 8], BoO2s=[0, 9], MbO1s=[1, 3], MbO2s=[0, 2, 4])
+        big = dict(Kinds=["bo", "bolfire", "bsl"], MaxPars=[4, 5], BSs=[3], Ks=[4], NInits=[0, 3, 6], NPres=[0, 3], BPAs=[2, 3], Upds=[2, 5],
+                   Asyncs=[False, True], BoO1s=[12], BoO2s=[0, 17], MbO1s=[2], MbO2s=[0, 3])
+        add(1, "big", mc_cfg(INV_COMMON + INV_MB + INV_BO, ["Terminates"], **big), 1, expect_actions=ACTIONS,
+            label="RoundGate: larger parameters (max_parallel_batches 4-5, batch_size 3, 4 batches per round)")
     add(0, "all", mc_cfg(INV_COMMON + INV_MB + INV_BO, ["Terminates"], **main), 3, expect_actions=ACTIONS,
         label="RoundGate: every configuration, every schedule: %d invariants + termination" % len(INV_COMMON + INV_MB + INV_BO))
     ctl = [
@@ -621,6 +662,13 @@ def corruptions(scs, traces):
         t = copy.deepcopy(tr)
         t["events"][-1]["left"] = 1
         out.append(("a task left in the client on return", "E:no-task-left-in-client", t, k))
+    # 6b. another result than the sequential run's
+    hit = first(lambda sc, tr: tr["seq"] and tr["events"] and tr["events"][-1]["ev"] == "ret" and tr["events"][-1]["raised"] == "")
+    if hit:
+        k, sc, tr = hit
+        t = copy.deepcopy(tr)
+        t["events"][-1]["digest"] = "0" * 16
+        out.append(("a result that differs from the sequential run's", "E:result-independent-of-schedule-and-parallelism", t, k))
     # 7. the first batch of a round let through while a batch is pending
     for k, (sc, tr) in enumerate(zip(scs, traces)):
         if sc["kind"] == "bo" or sc["maxpar"] < 2:
@@ -664,7 +712,12 @@ CLAUSES_TRACE = [
 def check_round_gate(ctx, design=True):
     bg = Design(ctx) if design else None
     scs = scenarios(ctx)
-    traces = [record(sc) for sc in scs]
+    traces = []
+    for sc in scs:
+        if HANGS[0] >= 2:          # the code under test does not terminate: enough evidence, do not burn the time budget
+            break
+        traces.append(record(sc))
+    scs = scs[:len(traces)]
     if bg is not None:
         bg.join()
     corr = corruptions(scs, traces)
